@@ -11,7 +11,7 @@ from . import httplib as H
 OCAML = H.OCAML
 GO = H.GO
 PROP = "props/C19.v"
-PROOFS = ["proofs/HttpInv.v", "proofs/HttpProps.v", "proofs/CompositeCfgProofs.v", "model/CompositeCfg.v"] + H.MODEL_FILES
+PROOFS = H.PROTO_PROOFS + ["proofs/CompositeCfgProofs.v", "model/CompositeCfg.v"] + H.MODEL_FILES
 HOW = "build/bin/http -family crash -case <file with the case JSON> | build/bin/http_model"
 
 
